@@ -216,8 +216,29 @@ let do_filemap () =
      done
    with End_of_file -> ())
 
+(* ---------------- directory cache chain (Model/CacheChain.v) ---------------- *)
+(* adfm cache <first block> : reads "add <key> <len> <newblock>" / "del <key>" / "upd <key> <len> <newblock>" from stdin;
+   after each prints "C blk=key:len,key:len|blk=..." and "F released blocks" *)
+let do_cache first =
+  let st = ref [ (z_of_int first, []) ] in
+  let show fr =
+    Printf.printf "C %s\n" (String.concat "|" (List.map (fun (b, rs) -> zs b ^ "=" ^ String.concat "," (List.map (fun r -> zs r.r_key ^ ":" ^ string_of_int (int_of_nat r.r_len)) rs)) !st));
+    Printf.printf "F %s\n" (String.concat "," (List.map zs fr)) in
+  let mk k l = { r_key = z_of_int k; r_len = nat_of_int l; r_body = [] } in
+  (try
+     while true do
+       let line = input_line stdin in
+       match List.filter (fun s -> s <> "") (String.split_on_char ' ' line) with
+       | ["add"; k; l; nb] -> st := c_add !st (mk (int_of_string k) (int_of_string l)) (z_of_int (int_of_string nb)); show []
+       | ["del"; k] -> let (c', fr) = c_del !st (z_of_int (int_of_string k)) in st := c'; show fr
+       | ["upd"; k; l; nb] -> let (c', fr) = c_update !st (mk (int_of_string k) (int_of_string l)) (z_of_int (int_of_string nb)) in st := c'; show fr
+       | _ -> ()
+     done
+   with End_of_file -> ())
+
 let () =
   match Array.to_list Sys.argv with
+  | [_; "cache"; first] -> do_cache (int_of_string first)
   | [_; "filemap"] -> do_filemap ()
   | [_; "chain"; intl] -> do_chain (intl <> "0")
   | [_; "alloc"; root; last] -> do_alloc (int_of_string root) (int_of_string last)
